@@ -1,7 +1,7 @@
 #!/bin/bash
 # Regression over every seeded change (and the behaviour-preserving refactorings, if present):
 # works on a private copy of /verif and a private worktree of /repo, so /repo and /verif stay free.
-#   tools/regress_all.sh [logfile]
+#   tools/regress_all.sh [logfile [id ...]]     (no ids: all of seeded/)
 set -u
 LOG=${1:-/tmp/regress_all.log}
 SRC=$(cd "$(dirname "$0")/.." && pwd)
@@ -15,7 +15,9 @@ cd $COPY
 export GOFLAGS=-mod=mod GOPROXY=off GOSUMDB=off GOTOOLCHAIN=local
 export VERIF_REPO=$REPO VERIF_WORK=$COPY/.work
 : > $LOG
-for d in $SRC/seeded/*/; do
+shift 2>/dev/null
+if [ $# -gt 0 ]; then DIRS=""; for i in "$@"; do DIRS="$DIRS $SRC/seeded/$i/"; done; else DIRS=$(ls -d $SRC/seeded/*/); fi
+for d in $DIRS; do
   id=$(basename $d); p=$(jq -r .property $d/meta.json)
   git -C $REPO checkout -q -- . ; git -C $REPO clean -fdq
   git -C $REPO apply $d/patch.diff || { echo "$id $p PATCH-FAILED" >> $LOG; continue; }
